@@ -173,6 +173,33 @@ def run_tlc(module, cfg, env=None, workers=1, timeout=1800, args=(), heap="2g",
     return TlcResult(out, rc, wall)
 
 
+def run_apalache(module, files, init, inv, length, next_=None, timeout=900):
+    """apalache-mc check on a scratch copy of spec/<files>; -> ("ok" | "violation" | "error", output tail, seconds).
+    Used for inductive-invariant steps (Init => IndInv at length 0, IndInv /\\ Next => IndInv' at length 1)."""
+    d = scratch_dir("apa")
+    for f in files:
+        shutil.copy(os.path.join(SPEC, f), os.path.join(d, f))
+    cmd = ["apalache-mc", "check", "--init=" + init, "--inv=" + inv, "--length=%d" % length, "--out-dir=" + os.path.join(d, "out")]
+    if next_:
+        cmd.append("--next=" + next_)
+    cmd.append(module + ".tla")
+    e = dict(os.environ)
+    e.pop("JAVA_TOOL_OPTIONS", None)
+    t0 = time.time()
+    try:
+        p = subprocess.run(cmd, stdout=subprocess.PIPE, stderr=subprocess.STDOUT, env=e, timeout=timeout, cwd=d)
+        out, rc = p.stdout.decode("utf-8", "replace"), p.returncode
+    except subprocess.TimeoutExpired as ex:
+        out, rc = (ex.stdout or b"").decode("utf-8", "replace") + "\nTIMEOUT\n", 124
+    shutil.rmtree(d, ignore_errors=True)
+    tail = "\n".join(out.splitlines()[-25:])
+    if rc == 0 and "EXITCODE: OK" in out:
+        return "ok", tail, time.time() - t0
+    if rc == 12 and "Checker has found an error" in out:
+        return "violation", tail, time.time() - t0
+    return "error", tail, time.time() - t0
+
+
 def run_many(jobs, parallel=16):
     """jobs: list of kwargs dicts for run_tlc; run up to `parallel` at a time."""
     with ThreadPoolExecutor(max_workers=parallel) as ex:
